@@ -466,11 +466,12 @@ def check_hkdf(ck_ob, mod, label):
         rng = ex._range(p, Lf.s(oli))
         ret = p.end[1]
         rc = ex.subst(p, ret).const() if (ret is not None and not is_word(ret)) else None
-        if not ev:
+        if all(e[2] in ("tinyjambu_clean", "tinyjambu_hkdf_free") and str(e[3][0]).startswith("alloca") for e in ev):
+            # (no call, or only wipes of the local state: a single-exit version wipes on both outcomes)
             seen.add("refuse")
             outs = [e for e in p.events if e[0] in ("out", "out-sym", "VARMEM")]
             ck_ob(rng[0] == 8161 and rc is not None and (rc & 0xFFFFFFFF) == 0xFFFFFFFF and not outs, "CAP", f.name, "refuse-above-8160[%s]" % label,
-                  "outlen > 8160 (= 255 * 32): returns -1, writes nothing, calls nothing", "refusal class is outlen >= %s, returns %s, writes %s: the 8160-byte cap is not enforced as documented" % (rng[0], rc, outs[:2]), w0)
+                  "outlen > 8160 (= 255 * 32): returns -1, writes nothing, calls nothing but a wipe of its local state", "refusal class is outlen >= %s, returns %s, writes %s: the 8160-byte cap is not enforced as documented" % (rng[0], rc, outs[:2]), w0)
         else:
             seen.add("ok")
             st = ev[0][3][0] if ev else ""
